@@ -3,6 +3,7 @@
 package compiler
 
 import (
+	"github.com/smarthome-go/homescript/v3/homescript/analyzer/ast"
 	"github.com/smarthome-go/homescript/v3/homescript/errors"
 	pAst "github.com/smarthome-go/homescript/v3/homescript/parser/ast"
 )
@@ -128,7 +129,63 @@ func (self Compiler) emittedSpan(k int) errors.Span {
 
 func (self Compiler) codeLen() int { return len(self.CurrFn().Instructions) }
 
+// ---------------------------------------------------------------------------
+// Operand-stack discipline of the generated code (C01 faithful execution, C02
+// no pop from an empty stack, C09 no operand leak in loops). ghost(depth) is
+// the number of operands the code emitted so far leaves on the stack at the
+// current emission point (relative to the function's entry, along the path
+// that reaches this point). `insert` moves it by the static effect of the
+// instruction; instructions whose effect depends on an operand count (calls,
+// host calls) and join points (labels) are accounted for where they are
+// emitted. The convention the contracts state: a statement leaves the depth
+// unchanged, an expression leaves exactly one value, a block vBlockLeaves(b).
+
+// VStackEffect: operands pushed minus operands popped by an instruction whose
+// effect is fixed by its opcode (0 for the others, see above). Throw is
+// counted as replacing its message by the (never produced) result of the
+// `throw` call, so that code behind it is typed like behind any other call.
+func VStackEffect(i Instruction) int {
+	switch i.Opcode() {
+	case Opcode_Copy_Push, Opcode_Cloning_Push, Opcode_GetVarImm, Opcode_GetGlobImm, Opcode_Duplicate, Opcode_IteratorAdvance:
+		return 1
+	case Opcode_Drop, Opcode_SetVarImm, Opcode_SetGlobImm, Opcode_JumpIfFalse, Opcode_Index, Opcode_Into_Range,
+		Opcode_Add, Opcode_Sub, Opcode_Mul, Opcode_Pow, Opcode_Div, Opcode_Rem, Opcode_Eq, Opcode_Lt, Opcode_Gt, Opcode_Le, Opcode_Ge,
+		Opcode_Shl, Opcode_Shr, Opcode_BitOr, Opcode_BitAnd, Opcode_BitXor:
+		return -1
+	case Opcode_Assign:
+		return -2
+	}
+	return 0
+}
+
+// vBlockLeaves: the number of operands (0 or 1) the code of a block leaves:
+// one for a block with a trailing expression, unless the block's type is
+// `null` ("generates no value"). Every expression compiled through
+// compileExpr leaves exactly one value (that is the contract of compileExpr);
+// which expressions produce it themselves and which get a null value pushed
+// behind them is the code's `leavesValue`.
+func vBlockLeaves(b ast.AnalyzedBlock) int {
+	return b2i(b.Expression != nil && b.ResultType.Kind() != ast.NullTypeKind)
+}
+
+/*@ func blockLeavesValue
+    serves C01, C02, C09
+    inline
+    assume-safety
+    ensures @as-specified result == (vBlockLeaves(node) == 1)
+@*/
+
+/*@ func leavesValue
+    serves C01, C02, C09
+    inline
+    assume-safety
+    assumes node != nil
+    ensures @assignments-generate-nothing node.Kind() == ast.AssignExpressionKind ==> !result
+    ensures @values-generate-themselves node.Kind() != ast.BlockExpressionKind && node.Kind() != ast.IfExpressionKind && node.Kind() != ast.TryExpressionKind && node.Kind() != ast.CallExpressionKind && node.Kind() != ast.AssignExpressionKind ==> result
+@*/
+
 /*@ func (self *Compiler) insert
+    ghostset depth = ghost(depth) + VStackEffect(instruction)
     serves C01, C08, C11
     requires self.aligned()
     ensures @aligned self.aligned() && self.CurrFn() == old(self.CurrFn())
@@ -138,6 +195,7 @@ func (self Compiler) codeLen() int { return len(self.CurrFn().Instructions) }
 @*/
 
 /*@ func (self *Compiler) arithmeticHelper
+    ensures @stack-effect ghost(depth) == old(ghost(depth)) - 1
     serves C01, C04, C08
     requires self.aligned()
     split op in 0..18
@@ -149,6 +207,7 @@ func (self Compiler) codeLen() int { return len(self.CurrFn().Instructions) }
 @*/
 
 /*@ func (self *Compiler) compilePrefixOp
+    ensures @stack-effect ghost(depth) == old(ghost(depth))
     serves C01, C04, C08
     requires self.aligned()
     ensures @aligned self.aligned() && self.CurrFn() == old(self.CurrFn())
@@ -270,6 +329,8 @@ func b2i(b bool) int {
 // PopTryLabel per block it leaves, so no catch-label outlives its block.
 
 /*@ func (self *Compiler) leaveTryBlocks
+    ensures @stack-effect ghost(depth) == old(ghost(depth))
+    loop 1 invariant ghost(depth) == entry(ghost(depth))
     serves C11
     requires self.aligned()
     ensures @aligned self.aligned() && self.CurrFn() == old(self.CurrFn())
@@ -307,10 +368,19 @@ func b2i(b bool) int {
 @*/
 
 /*@ func (self *Compiler) compileIfExpr
+    assumes @branches-agree (node.ElseBlock != nil ==> vBlockLeaves(*node.ElseBlock) == vBlockLeaves(node.ThenBlock)) && (node.ElseBlock == nil ==> vBlockLeaves(node.ThenBlock) == 0)
+    ghostat @else-entry after self.insert(newOneStringInstruction(Opcode_Label, else_label), node.Range) :: depth = old(ghost(depth))
+    ensures @stack-effect ghost(depth) == old(ghost(depth)) + vBlockLeaves(node.ThenBlock)
     ensures @same-function self.aligned() && self.currFn == old(self.currFn) && self.currModule == old(self.currModule) && samemap(self.modules, old(self.modules)) && self.CurrFn() == old(self.CurrFn())
 @*/
 
 /*@ func (self *Compiler) compileCallExpr
+    assumes @throw-and-spawn-yield-a-value (node.IsSpawn ==> node.ResultType.Kind() != ast.NullTypeKind) && (node.Base.Kind() == ast.IdentExpressionKind && node.Base.(ast.AnalyzedIdentExpression).Ident.Ident() == "throw" ==> len(node.Arguments.List) == 1 && node.ResultType.Kind() != ast.NullTypeKind)
+    loop 1 invariant ghost(depth) == entry(ghost(depth)) + (len(node.Arguments.List) - 1 - i) && i >= -1
+    ghostat @call-through-a-value before-each self.insert(newPrimitiveInstruction(Opcode_Call_Val) :: depth = ghost(depth) - 2 - len(node.Arguments.List) + b2i(node.ResultType.Kind() != ast.NullTypeKind)
+    ghostat @spawn-pushes-its-handle after opcode = Opcode_Spawn :: depth = ghost(depth) - b2i(node.ResultType.Kind() != ast.NullTypeKind)
+    ghostat @call-by-name before self.insert(newOneStringInstruction(opcode, name), node.Span()) :: depth = ghost(depth) - len(node.Arguments.List) + b2i(node.ResultType.Kind() != ast.NullTypeKind)
+    ensures @stack-effect ghost(depth) == old(ghost(depth)) + b2i(node.ResultType.Kind() != ast.NullTypeKind)
     ensures @same-function self.aligned() && self.currFn == old(self.currFn) && self.currModule == old(self.currModule) && samemap(self.modules, old(self.modules)) && self.CurrFn() == old(self.CurrFn())
 @*/
 
@@ -326,12 +396,16 @@ func vInfixShape(op pAst.InfixOperator) int {
 }
 
 /*@ func (self *Compiler) compileInfixExpr
+    ghostat @short-circuit-true after self.insert(newOneStringInstruction(Opcode_Label, returnTrue), node.Range) :: depth = old(ghost(depth))
+    ghostat @short-circuit-false after self.insert(newOneStringInstruction(Opcode_Label, returnFalse), node.Range) :: depth = old(ghost(depth))
+    ensures @stack-effect ghost(depth) == old(ghost(depth)) + 1
     split vInfixShape(node.Operator) in 0..2
     assumes @well-formed-tree node.Operator <= pAst.GreaterThanEqualInfixOperator
     ensures @same-function self.aligned() && self.currFn == old(self.currFn) && self.currModule == old(self.currModule) && samemap(self.modules, old(self.modules)) && self.CurrFn() == old(self.CurrFn())
 @*/
 
 /*@ func (self *Compiler) compileIdentExpression
+    ensures @stack-effect ghost(depth) == old(ghost(depth)) + 1
     ensures @same-function self.aligned() && self.currFn == old(self.currFn) && self.currModule == old(self.currModule) && samemap(self.modules, old(self.modules)) && self.CurrFn() == old(self.CurrFn())
 @*/
 
@@ -348,6 +422,12 @@ func vInfixShape(op pAst.InfixOperator) int {
 @*/
 
 /*@ func (self *Compiler) compileFn
+    ghostat @function-entry before mpIdx := self.insert(newOneIntInstruction(Opcode_AddMempointer, 0), node.Range) :: depth = 0
+    ghostat @parameter-was-pushed-by-the-caller after self.insert(newOneStringInstruction(Opcode_SetVarImm, name), node.Range) :: depth = ghost(depth) + 1
+    ghostat @back-in-the-enclosing-function before return annotations, mangledFn :: depth = old(ghost(depth))
+    ensures @stack-effect ghost(depth) == old(ghost(depth))
+    loop "range node.Parameters.List" invariant ghost(depth) == 0
+    loop "range singletonExtractors" invariant ghost(depth) == 0
     serves C01, C11, C15
     assume-safety
     requires self.scopesWF() && haskey(self.modules, self.currModule) && self.modules[self.currModule] != nil
@@ -367,20 +447,48 @@ func vInfixShape(op pAst.InfixOperator) int {
     loopinvariant forall m map[string]string in allocated :: !samemap(m, self.varScopes[len(self.varScopes)-1]) ==> samecontent(m, entry(m))
 @*/
 
+// compileExpr: every expression leaves exactly one value - the consumers
+// (let, operators, list and object literals, calls, match, ...) pop one without
+// looking at the kind of their operand. Expressions that produce no value by
+// themselves (blocks without a value, calls of functions without result,
+// assignments) get a null value pushed behind them.
+
 /*@ func (self *Compiler) compileExpr
-    serves C01, C11, C15
+    serves C01, C02, C09, C11, C15
+    assumes @well-formed-tree node != nil && node.Kind() != ast.UnknownExpressionKind
+    ensures @exactly-one-value ghost(depth) == old(ghost(depth)) + 1
+    ensures @same-function self.aligned() && self.currFn == old(self.currFn) && self.currModule == old(self.currModule) && samemap(self.modules, old(self.modules)) && self.CurrFn() == old(self.CurrFn())
+@*/
+
+/*@ func (self *Compiler) compileExprInner
+    serves C01, C02, C09, C11, C15
     split node.Kind() in 0..24
     splitcond at 16 :: node.(ast.AnalyzedAssignExpression).Lhs.Kind() == ast.IdentExpressionKind
     splitcond at 16 :: node.(ast.AnalyzedAssignExpression).Operator != pAst.StdAssignOperatorKind
     assumes @well-formed-tree node != nil && node.Kind() != ast.UnknownExpressionKind
+    assumes @branches-agree-try node.Kind() == ast.TryExpressionKind ==> vBlockLeaves(node.(ast.AnalyzedTryExpression).CatchBlock) == vBlockLeaves(node.(ast.AnalyzedTryExpression).TryBlock)
     assume @well-formed-assignment before-each self.arithmeticHelper(node.Operator.IntoInfixOperator(), node.Range) :: node.Operator <= pAst.BitXorAssignOperatorKind
-    ensures @same-function self.aligned() && self.currFn == old(self.currFn) && self.currModule == old(self.currModule) && samemap(self.modules, old(self.modules)) && self.CurrFn() == old(self.CurrFn())
     assume @literal-is-another-function after self.currFn = oldCurrFn :: self.aligned() && self.CurrFn() == old(self.CurrFn()) && self.codeLen() == old(self.codeLen())
+    ghostat @list-push-consumes-element before-each self.insert(newOneStringInstruction(Opcode_HostCall, LIST_PUSH), node.Range) :: depth = ghost(depth) - 2
+    ghostat @arm-entry after self.insert(newOneStringInstruction(Opcode_Label, branches[i]), node.Range) :: depth = old(ghost(depth)) + 1
+    ghostat @default-arm-entry after self.insert(newOneStringInstruction(Opcode_Label, default_branch), node.Range) :: depth = old(ghost(depth)) + 1
+    assert @match-arms-join-with-one-value before self.insert(newOneStringInstruction(Opcode_Label, after_branch), node.Range) :: ghost(depth) == old(ghost(depth)) + 1
+    ghostat @catch-entry after self.insert(newOneStringInstruction(Opcode_Label, exceptionLabel), node.Range) :: depth = old(ghost(depth)) + 1
+    ensures @stack-effect ghost(depth) == old(ghost(depth)) + b2i(leavesValue(node))
+    ensures @same-function self.aligned() && self.currFn == old(self.currFn) && self.currModule == old(self.currModule) && samemap(self.modules, old(self.modules)) && self.CurrFn() == old(self.CurrFn())
+    loop "range node.Values" invariant ghost(depth) == entry(ghost(depth))
+    loop "range node.Fields"#2 invariant ghost(depth) == entry(ghost(depth))
+    loop "range node.Arms" invariant ghost(depth) == entry(ghost(depth))
+    loop "range option.Literals" invariant ghost(depth) == entry(ghost(depth))
+    loop "range node.Arms"#2 progress @arm-leaves-the-match-value ghost(depth) == old(ghost(depth)) + 1
     assert @try-block-counted before self.compileBlock(node.TryBlock, true) :: self.tryDepth == old(self.tryDepth)+1 && self.emitted(0).Opcode() == Opcode_SetTryLabel
     assert @try-block-closed after self.insert(newPrimitiveInstruction(Opcode_PopTryLabel), node.Range) :: self.tryDepth == old(self.tryDepth) && self.emitted(0).Opcode() == Opcode_PopTryLabel
 @*/
 
+
 /*@ func (self *Compiler) compileLetStmt
+    assert @initialiser-leaves-a-value after self.compileExpr(node.Expression) :: ghost(depth) == old(ghost(depth)) + 1
+    ensures @stack-effect ghost(depth) == old(ghost(depth))
     serves C01, C15
     assume-safety
     requires self.scopesWF() && self.aligned()
@@ -394,6 +502,8 @@ func vInfixShape(op pAst.InfixOperator) int {
 @*/
 
 /*@ func (self *Compiler) compileBlock
+    ensures @stack-effect ghost(depth) == old(ghost(depth)) + vBlockLeaves(node)
+    loop 1 invariant ghost(depth) == entry(ghost(depth))
     serves C01, C11, C15
     assume-safety
     assumepre compileStmt
@@ -412,6 +522,10 @@ func vInfixShape(op pAst.InfixOperator) int {
 @*/
 
 /*@ func (self *Compiler) compileStmt
+    assumes @loop-bodies-leave-nothing (node.Kind() == ast.LoopStatementKind ==> vBlockLeaves(node.(ast.AnalyzedLoopStatement).Body) == 0) && (node.Kind() == ast.WhileStatementKind ==> vBlockLeaves(node.(ast.AnalyzedWhileStatement).Body) == 0) && (node.Kind() == ast.ForStatementKind ==> vBlockLeaves(node.(ast.AnalyzedForStatement).Body) == 0)
+    ghostat @trigger-registration before self.insert(newOneStringInstruction(Opcode_HostCall, RegisterTriggerHostFn), node.Span()) :: depth = ghost(depth) - 3 - len(node.TriggerArguments.List) + 1
+    ghostat @code-behind-return-is-dead after self.insert(newOneStringInstruction(Opcode_Jump, self.CurrFn().CleanupLabel), node.Span()) :: depth = old(ghost(depth))
+    ensures @stack-effect ghost(depth) == old(ghost(depth))
     serves C01, C11, C15
     assume-safety
     assumepre compileBlock
@@ -435,6 +549,7 @@ func vInfixShape(op pAst.InfixOperator) int {
     loop 1 invariant self.scopesWF() && self.aligned() && self.codeLen() >= entry(self.codeLen()) && len(self.varScopes) == entry(len(self.varScopes)) && len(self.loops) == entry(len(self.loops)) && self.tryDepth == entry(self.tryDepth) && self.currFn == entry(self.currFn) && self.currModule == entry(self.currModule) && samemap(self.modules, entry(self.modules)) && self.CurrFn() == entry(self.CurrFn())
     loop 1 invariant forall i in 0..len(self.varScopes) :: samemap(self.varScopes[i], entry(self.varScopes[i]))
     loop 1 invariant forall m map[string]string in allocated :: samecontent(m, entry(m))
+    loop 1 invariant ghost(depth) == entry(ghost(depth)) + (len(node.TriggerArguments.List) - 1 - idx)
 @*/
 
 // ---------------------------------------------------------------------------
@@ -444,6 +559,7 @@ func vInfixShape(op pAst.InfixOperator) int {
 // module's init routine calls the init routine of every other module.
 
 /*@ func (self *Compiler) compileSingletonInit
+    ensures @stack-effect ghost(depth) == old(ghost(depth))
     serves C01, C15
     assume-safety
     requires self.scopesWF() && self.aligned()
@@ -456,6 +572,7 @@ func vInfixShape(op pAst.InfixOperator) int {
 @*/
 
 /*@ func (self *Compiler) compileProgram
+    ensures @stack-effect-declared ghost(depth) == ghost(depth)
     serves C14, C15
     assume-safety
     requires len(self.varScopes) == 1 && self.scopesWF() && len(self.loops) == 0 && self.tryDepth == 0 && self.modules != nil && self.globalScopes != nil
